@@ -4,7 +4,7 @@ From Coq Require Import String.
 From Coq Require Import List Ascii ZArith Bool Lia.
 From CGV Require Import Base.PyBase Base.PyVal Base.NxGraph Resolve.Bonding Resolve.GraphOps Resolve.Pipeline
      Resolve.MapDefs Resolve.Witness Resolve.MapProofs Resolve.CopyProofs Resolve.PipelineFull Resolve.FragidProofs Resolve.EdgeCopy Resolve.EdgeCopyGen Resolve.BondedCopy Resolve.BondingDefs Resolve.WfMerged Resolve.CoarseCopy Resolve.AllAtomCopy Resolve.SquashedCopy Resolve.SquashedReturned Resolve.CopyOnto.
-From CGV Require Hydro.NumTotal Dialect.ReturnedCar.
+From CGV Require Hydro.NumTotal Dialect.ReturnedCar Hydro.ShareCutTotal.
 From CGV Require Hydro.QuotientDefs.
 From CGV Require Compose.RebuildWf Hydro.Hydrogens.
 From CGV Require Hydro.Squash Gen.HydroGen.
@@ -268,7 +268,8 @@ Proof. exact step_squashed_bonds. Qed.
     coarse node with a fragment a map cf0 of its template atoms into the bonded graph such that, with r = the class representative
     of the `!` classes: EVERY template atom n has ONE image sg (r (cf0 n)) in the returned graph; the image's fragid list contains
     the coarse key and its mapping list the pair (fragname, n); every entry of the image's fragid list is the (single) coarse key
-    of a member of the same class - a merged atom lists every coarse key of its class and nothing else; a template atom whose copy
+    of a member of the same class - a merged atom lists every coarse key of its class and nothing else, in MERGE ORDER (the lists are
+    hydro's [merged_lists]: the survivor's own entry, then the entries of the atoms merged into it); a template atom whose copy
     is the survivor of its class keeps every attribute the step does not write ([written_keys_sq] = 'contraction' + written_keys);
     images of bonded template atoms are equal or adjacent, and two images are adjacent only if members of their classes were
     bonded in the bonded graph; when the coarse keys are distinct, every atom x of the squashed graph (= every returned atom sg x
@@ -308,6 +309,10 @@ Theorem C02_step_squashed_returned : forall legacy aa fd prev car fo, tmpl_dict 
          exists l lm,
            node_get (fo_mol fo) (sg (QuotientDefs.rho (fo_m2 fo) (cf0 (nk n)))) (S "fragid") = Some (VList l) /\ In (VInt (nk mn)) l /\
            node_get (fo_mol fo) (sg (QuotientDefs.rho (fo_m2 fo) (cf0 (nk n)))) (S "mapping") = Some (VList lm) /\ In (mapping_entry name (nk n)) lm /\
+           l = QuotientDefs.merged_lists (ShareCutTotal.lists_fn (fo_m2 fo) (S "fragid")) (SquashDefs.squash_plan [] (SquashDefs.bang_items (fo_m2 fo)))
+                                         (QuotientDefs.rho (fo_m2 fo) (cf0 (nk n))) /\
+           lm = QuotientDefs.merged_lists (ShareCutTotal.lists_fn (fo_m2 fo) (S "mapping")) (SquashDefs.squash_plan [] (SquashDefs.bang_items (fo_m2 fo)))
+                                          (QuotientDefs.rho (fo_m2 fo) (cf0 (nk n))) /\
            (forall v, In v l -> exists p, In p (node_keys (fo_m2 fo)) /\ QuotientDefs.rho (fo_m2 fo) p = QuotientDefs.rho (fo_m2 fo) (cf0 (nk n)) /\
                                          node_get (fo_m2 fo) p (S "fragid") = Some (VList [v])) /\
            (QuotientDefs.rho (fo_m2 fo) (cf0 (nk n)) = cf0 (nk n) -> forall key v, ~ In key written_keys_sq -> aget key (na n) = Some v ->
